@@ -64,7 +64,7 @@ type Module struct { //nolint:maligned
 	stopComplete  chan struct{}
 
 	// workers/tasks
-	ctrlFuncRunning *abool.AtomicBool
+	ctrlFuncRunning *ctrlFuncState
 	workerCnt       *int32
 	taskCnt         *int32
 	microTaskCnt    *int32
@@ -254,6 +254,37 @@ func (m *Module) start(reports chan *report) {
 	}()
 }
 
+// ctrlFuncState tracks whether a control function (prep, start, stop) of a
+// module is running. Every invocation gets its own number, so that the late
+// end signal of one invocation cannot be taken for the end of the next one.
+type ctrlFuncState struct {
+	current uint64 // number of the running invocation, 0 if none
+	last    uint64
+}
+
+// begin marks a control function as running and returns its number.
+func (s *ctrlFuncState) begin() uint64 {
+	id := atomic.AddUint64(&s.last, 1)
+	atomic.StoreUint64(&s.current, id)
+	return id
+}
+
+// end marks the control function with the given number as ended, unless a
+// newer invocation has begun in the meantime.
+func (s *ctrlFuncState) end(id uint64) {
+	atomic.CompareAndSwapUint64(&s.current, id, 0)
+}
+
+// IsSet returns whether a control function is running.
+func (s *ctrlFuncState) IsSet() bool {
+	return atomic.LoadUint64(&s.current) != 0
+}
+
+// IsNotSet returns whether no control function is running.
+func (s *ctrlFuncState) IsNotSet() bool {
+	return !s.IsSet()
+}
+
 func (m *Module) checkIfStopComplete() {
 	if m.stopFlag.IsSet() &&
 		m.ctrlFuncRunning.IsNotSet() &&
@@ -299,7 +330,7 @@ func (m *Module) stop(reports chan *report) {
 func (m *Module) stopAllTasks(reports chan *report) {
 	// Manually set the control function flag in order to stop completion by race
 	// condition before stop function has even started.
-	m.ctrlFuncRunning.Set()
+	m.ctrlFuncRunning.begin()
 	verifPoint("stop.ctrlset", m)
 
 	// Set stop flag for everyone checking this flag before we activate any stop trigger.
@@ -399,7 +430,7 @@ func initNewModule(name string, prep, start, stop func() error, dependencies ...
 		cancelCtx:           cancelCtx,
 		stopFlag:            abool.NewBool(false),
 		stopCompleted:       abool.NewBool(true),
-		ctrlFuncRunning:     abool.NewBool(false),
+		ctrlFuncRunning:     &ctrlFuncState{},
 		workerCnt:           &workerCnt,
 		taskCnt:             &taskCnt,
 		microTaskCnt:        &microTaskCnt,
